@@ -138,6 +138,13 @@ func TestVerif_C08_FlvRead(t *testing.T) {
 				if !check("c08:flv-cut:data+eof", c, hdrOK, tags, err, false) {
 					return
 				}
+				// the same truncated file as a reader that can do more than Read (Seek, ReadAt, WriteTo, ReadByte), as an
+				// os.File or a bytes.Reader over a partial download is: no shortcut through those may lose the cut
+				hdrOK, tags, err = demux(bytes.NewReader(data[:c]))
+				m.Count("cut_offsets_seekable_reader", 1)
+				if !check("c08:flv-cut:seekable", c, hdrOK, tags, err, false) {
+					return
+				}
 			}
 			m.Classf("cuts/tags%d", len(f.Tags))
 		})
